@@ -49,6 +49,17 @@ class Scheduler:
         return {'policy': 'explicit', 'decisions': list(self.trace)}
 
 
+def _interrupt_point(it):
+    """SIGINT while the consumer waits for its k-th result: KeyboardInterrupt surfaces inside the blocking next(), as with the real pool"""
+    k = getattr(it, 'next_calls', 0)
+    it.next_calls = k + 1
+    pool = it.pool
+    if (pool.faults.get((pool.pool_id, k)) or pool.faults.get(('*', k))) == 'interrupt':
+        pool.sched.log.add('pool', pool.pool_id, 'SIGINT-while-waiting', k)
+        pool.fired('interrupt')
+        raise KeyboardInterrupt()
+
+
 class _Iter:
     def __init__(self, pool, func, tasks, ordered):
         self.pool, self.func, self.ordered = pool, func, ordered
@@ -126,6 +137,7 @@ class _Iter:
 
     def __next__(self):
         sch = self.pool.sched
+        _interrupt_point(self)
         while True:
             if self.delivered + len(self.lost) >= self.n and not self.ready:
                 if self.lost:
@@ -250,6 +262,7 @@ class _ChunkIter:
 
     def __next__(self):
         sch = self.pool.sched
+        _interrupt_point(self)
         pid = self.pool.pool_id
         while True:
             if self.buffer:
@@ -557,6 +570,7 @@ class _ForkIter:
 
     def __next__(self):
         sch = self.pool.sched
+        _interrupt_point(self)
         while True:
             if self.delivered + len(self.lost) >= self.n and not self.ready:
                 if self.lost:
